@@ -34,6 +34,9 @@ func (p sessProp) Decode(raw json.RawMessage) (interface{}, error) {
 
 // observations are kept per input for the oracle (Run is called before Oracle)
 func (p sessProp) Run(in interface{}) Sx {
+	if in.(sessIn).WS != "" {
+		return runSessionWS(in.(sessIn))
+	}
 	_, sx := runSessionRaw(in.(sessIn))
 	return sx
 }
@@ -45,7 +48,7 @@ func (p sessProp) InputObs(in interface{}, obs Sx) Sx {
 func (p sessProp) Key(inp interface{}) (string, bool) {
 	in := inp.(sessIn)
 	var b strings.Builder
-	fmt.Fprintf(&b, "i%v r%v e%v m%v o%v t%d s%s|", in.Insecure, in.Resource != "", in.SMEnable, in.SMResume, in.OAuth, in.TLSMode, in.ServerName)
+	fmt.Fprintf(&b, "%si%v r%v e%v m%v o%v t%d s%s|", in.WS, in.Insecure, in.Resource != "", in.SMEnable, in.SMResume, in.OAuth, in.TLSMode, in.ServerName)
 	n := 0
 	for _, c := range in.Conns {
 		fmt.Fprintf(&b, "[%s%v", c.Cert, c.NoDial)
@@ -344,7 +347,13 @@ func scriptCompletes(in sessIn, c sessConn, prevID string, smEnable bool) (bool,
 	if f == nil {
 		return false, ""
 	}
-	if f.TLS != 0 {
+	if in.WS != "" {
+		// the WebSocket transport: secure from the start (wss://) or not at all, no STARTTLS step whatever the
+		// features say; a plain ws:// connection completes only for a client that allows clear text
+		if in.WS != "wss" && !in.Insecure {
+			return false, ""
+		}
+	} else if f.TLS != 0 {
 		if expect("proceed") == nil || !in.tlsOutcome(c.Cert) || expect("header") == nil {
 			return false, ""
 		}
@@ -701,6 +710,8 @@ func genC03(r *rand.Rand, tier string) []interface{} {
 	in.Conns = []sessConn{{NoDial: true}, {Groups: g}}
 	in.Tag = "nodial"
 	out = append(out, in)
+	// 7. the other transport: WebSocket, plain and over TLS (c03ws.go)
+	out = append(out, genC03ws(r, tier)...)
 	return out
 }
 
@@ -889,7 +900,7 @@ func genC11long(r *rand.Rand, tier string) []interface{} {
 }
 
 func init() {
-	register(sessProp{id: "C03", gen: genC03, rule: "scripted TCP/TLS server against the real Client.connect: good scripts for random client configurations and feature shapes, then the per-step alphabet: every step (each stream header, each features element, proceed, auth reply, resume reply, bind reply, session reply, enable reply) x every reply kind (32 kinds: success variants, failure/error replies with and without echoed payload, unexpected elements of every other kind, malformed XML, stream close, connection drop) with all other steps successful, with and without resumable state; quick tier runs a seed-dependent third of the matrix, thorough all of it 12 times with fresh shapes; distinct = configuration + script item kinds; non-trivial = script of >= 3 items; patient-server scenarios (the server answers item by item and looks, before and between the items, whether the client has already written again; it records how many items it had sent when each request showed up, which must be at least what the model says the client has consumed by then, C03_waits_for_confirmation / C03_seen_is_read): good shapes, an unrelated stanza appended to one answer, a deviation in the middle"})
+	register(sessProp{id: "C03", gen: genC03, rule: "scripted TCP/TLS server against the real Client.connect: good scripts for random client configurations and feature shapes, then the per-step alphabet: every step (each stream header, each features element, proceed, auth reply, resume reply, bind reply, session reply, enable reply) x every reply kind (32 kinds: success variants, failure/error replies with and without echoed payload, unexpected elements of every other kind, malformed XML, stream close, connection drop) with all other steps successful, with and without resumable state; quick tier runs a seed-dependent third of the matrix, thorough all of it 12 times with fresh shapes; distinct = configuration + script item kinds; non-trivial = script of >= 3 items; the same over the WebSocket transport (ws:// and wss:// scripted websocket endpoints x Insecure x feature shapes incl. features that advertise STARTTLS: good scripts, deviations at every step, a failed attempt followed by a good one, resumption over wss; no STARTTLS and no stream restart before <auth/> there); patient-server scenarios (the server answers item by item and looks, before and between the items, whether the client has already written again; it records how many items it had sent when each request showed up, which must be at least what the model says the client has consumed by then, C03_waits_for_confirmation / C03_seen_is_read): good shapes, an unrelated stanza appended to one answer, a deviation in the middle"})
 	register(c04Prop{s: sessProp{id: "C04", gen: genC04, rule: "Insecure x TLS config {RootCAs, InsecureSkipVerify, nil} x ServerName {unset, other} x STARTTLS {absent, offered, required} x reply {proceed, failure, unexpected, malformed, close, drop} x certificate {valid, wrong host, untrusted issuer, expired} x history {first connection, reconnect after a TLS session, reconnect after a clear session} against a real TLS-capable server; the server records whether each client element arrived inside TLS; quick tier a seed-dependent third, thorough the full product 6 times"}})
 	register(c11Prop{s: sessProp{id: "C11", gen: genC11, rule: "histories of 3 connections: SM enabled with id, then two reconnects whose reply to <resume/> ranges over {resumed same id, other id, failed, failed+stanza condition, every unexpected kind, malformed, close, drop} (all pairs), SM advertised or not on the second connection, random stanza traffic between connections (counted by the real receive loop); quick tier a third of the pairs, thorough all pairs 8 times; PLUS histories of 4-8 connections: a random walk over {resumption confirmed, refused (new session, new id), answered with another id / an unexpected element / malformed XML / a closed or cut stream (state gone), failed attempts that ask nothing: refused dial, failed TLS handshake, rejected password, cut at the stream restart}; the oracle derives from the SCRIPT which id may still be presented at each point"}})
 }
